@@ -195,6 +195,12 @@ func (w *world) apply(op *Op) want {
 	switch op.Op {
 	case "read":
 		return w.read(h, op)
+	case "itnext":
+		// one step of the handle's line iterator = read("*l") at the handle's cursor
+		if !h.rd {
+			return want{kind: expAny}
+		}
+		return w.read(h, &Op{H: op.H, Op: "read", Fmts: []string{"*l"}})
 	case "write":
 		return w.write(h, op)
 	case "seek":
